@@ -175,6 +175,9 @@ def run(chk):
                derived="origin %s" % sorted(org), loc=calls[0].loc)
     sibling_defaults(chk, "R-FMT-TYPE", ["eqsig.loader.load_sig", "eqsig.loader.load_asig"], neutral={"m": 1.0, "load_label": False},
                      label="load_sig~load_asig")
+    from ..tyob import positional_order
+    positional_order(chk, "R-FMT-TYPE", ["eqsig.loader.load_values_and_dt", "eqsig.loader.load_signal", "eqsig.loader.load_sig", "eqsig.loader.load_asig",
+                                         "eqsig.loader.save_values_and_dt", "eqsig.loader.save_signal"])
     chk.floor("R-FMT-PREC", 3)
     chk.floor("R-FMT-LAYOUT", 6)
     chk.floor("R-FMT-LOSSY", 3)
